@@ -13,8 +13,13 @@ Record lock_fact := mk_lf { lf_fn : string; lf_field : string; lf_rw : rw; lf_ba
 (* critical sections: how often a function acquires a lock and whether it writes state guarded by it *)
 Record cs_fact := mk_cs { cs_fn : string; cs_lock : string; cs_regions : nat; cs_writes : bool }.
 
-Inductive vkind := VOnceInit | VAfterOnce | VAtomic | VPlain.
+Inductive vkind := VOnceInit | VAfterOnce | VAtomicRMW | VAtomicLoad | VAtomicStore | VAtomicCAS | VPlain.
 Record var_fact := mk_vf { vf_fn : string; vf_var : string; vf_rw : rw; vf_kind : vkind }.
+
+(* the ordered atomic operations a function applies to a package-level counter *)
+Record counter_prog := mk_cp { cp_fn : string; cp_var : string; cp_ops : list cop }.
+(* in-place mutation of a slice owned by a SecurityConfig (shared by shallow copies) *)
+Record slice_mut := mk_sm { sm_fn : string; sm_what : string; sm_base : string }.
 
 Inductive cfgk := CfgCopy | CfgFresh | CfgShared.
 Record auth_site := mk_as { as_fn : string; as_arg : string; as_kind : cfgk }.
@@ -82,8 +87,17 @@ Definition unguarded (fs : list lock_fact) : list lock_fact := filter (fun x => 
    renewed or removed between the read that decides and the write that acts) *)
 Definition cs_ok (c : cs_fact) : bool := negb (cs_writes c) || Nat.eqb (cs_regions c) 1.
 
+(* a package-level variable is touched only through sync.Once, or through sync/atomic
+   operations that are complete by themselves: an atomic Store is a blind overwrite
+   (with a preceding Load: a check-then-act built from atomics) and is not accepted *)
 Definition var_ok (v : var_fact) : bool :=
-  match vf_kind v with VPlain => false | _ => true end.
+  match vf_kind v with VPlain | VAtomicStore => false | _ => true end.
+
+(* a function that hands out values of a counter does so by atomic adds only
+   (pure readers may Load); Load..Store sequences and anything unrecognised fail *)
+Definition counter_prog_ok (c : counter_prog) : bool :=
+  forallb is_add (cp_ops c) ||
+  forallb (fun o => match o with CLoad => true | _ => false end) (cp_ops c).
 
 Definition private (s : auth_site) : bool :=
   match as_kind s with CfgCopy | CfgFresh => true | CfgShared => false end.
